@@ -41,6 +41,10 @@ type Prog struct {
 	GOARCH string
 
 	funcs []*ssa.Function // all module functions incl. anonymous, sorted
+
+	Overlay  map[string][]byte
+	unproven map[string]string
+	req      map[*ssa.Function]bool
 }
 
 func goEnv(extra ...string) []string {
@@ -83,7 +87,7 @@ func LoadRepo(repo string, whole bool, goarch string, overlay map[string][]byte)
 	if len(pkgs) == 0 {
 		return nil, fmt.Errorf("no packages loaded from %s", repo)
 	}
-	p := &Prog{Repo: repo, Pkgs: map[string]*packages.Package{}, SSA: map[string]*ssa.Package{}, Whole: whole, GOARCH: goarch}
+	p := &Prog{Repo: repo, Pkgs: map[string]*packages.Package{}, SSA: map[string]*ssa.Package{}, Whole: whole, GOARCH: goarch, Overlay: overlay}
 	var errs []string
 	packages.Visit(pkgs, nil, func(pk *packages.Package) {
 		p.All = append(p.All, pk)
